@@ -1033,6 +1033,13 @@ func (h *Hashgraph) DecideRoundReceived() error {
 		for i := r + 1; i <= h.Store.LastRound(); i++ {
 			tr, err := h.Store.GetRound(i)
 			if err != nil {
+				// After a fast-forward, the rounds between an old event's round
+				// and the roundLowerBound are not known at all. Like the
+				// undecided rounds below the roundLowerBound (cf below), they
+				// can be skipped: the event will be received in a later round.
+				if h.roundLowerBound != nil && i <= *h.roundLowerBound {
+					continue
+				}
 				// When a node joins, it can have a first event with round 0 (if
 				// it doesn't have any other-parent). If the other nodes have
 				// already processed many rounds (more than the cache-limit),
